@@ -20,6 +20,7 @@ def companions():
     res = {
         "LocalStoreFSMC.tla": {"FsConf.tla": fsconf.module("crash_first_keep", "atomic")},
         "FsTrace.tla": {},
+        "StoreViews.tla": {"ViewsConf.tla": viewsconf()},
         "DdsValues.tla": {"ValuesConf.tla": valuesconf.module("values", 1)},
         "ValuesTrace.tla": {"ValuesConf.tla": valuesconf.module("values", 1)},
         "DdsEval.tla": eval_files,
@@ -32,6 +33,11 @@ def companions():
     except ImportError:
         pass
     return res
+
+
+def viewsconf() -> str:
+    from . import viewprops
+    return viewprops.conf(3, False)
 
 
 def fsconf_mod() -> str:
